@@ -13,7 +13,7 @@ def _extra(run):
         "check_tx_ex_units (Alonzo/Babbage/Conway)", "check_min_fee / check_fees + check_tx_size (four post-Byron eras)",
         "check_collaterals_assets of Alonzo / Babbage / Conway: collateral sum, lovelace_diff_or_fail / conway_lovelace_diff_or_fail (every arm, `f - s` as a panic site), percentage arithmetic, annotation", "compute_min_lovelace arithmetic (all eras)",
         "Shelley-MA deposit / refund arithmetic and the MIR total", "check_preservation_of_value + value arithmetic of utils.rs (all eras)",
-        "Byron check_fees", "verification-key witness and required-signer checks (four post-Byron eras)", "validate_txs loop"]
+        "Byron check_fees", "eval_native_script / check_native_scripts of Shelley-MA (six constructors, short-circuiting all / any, the u32 n-of-k count as a panic site)", "verification-key witness and required-signer checks (four post-Byron eras)", "validate_txs loop"]
     run.extra_cov["no_partial_operation_in_own_code"] = [
         "script / datum / redeemer / minting-policy / language rules, script-integrity and auxiliary-data hash checks: stated as total "
         "functions of the observations in Model/Rules.lean (C38); script_rule_sites_benign: every inventoried site inside their functions "
@@ -33,7 +33,8 @@ SPEC = {
     "lean_modules": ["PallasVerif.Props.C33", "PallasVerif.Proofs.ValueTotal"],
     "required_theorems": ["validate_total", "panic_sites_all_audited", "all_anchored_files_scanned", "exunits_total", "min_fee_total",
                           "fee_and_size_total", "collateral_total", "subU64_panics_iff", "lovelace_diff_total", "collateral_balance_total",
-                          "collateral_rule_total", "collateral_alonzo_total", "script_rule_sites_benign", "min_lovelace_total", "deposits_total", "mir_total", "preservation_total",
+                          "collateral_rule_total", "collateral_alonzo_total", "script_rule_sites_benign", "eval_total", "count_total",
+                          "native_scripts_total", "nOfK_zero", "min_lovelace_total", "deposits_total", "mir_total", "preservation_total",
                           "preservation_total_shelleyMA", "preservation_total_conway", "byron_fees_total", "witness_total",
                           "witness_total_shelley", "validate_txs_total"],
     "translators": [_panic_sites],
@@ -52,7 +53,11 @@ SPEC = {
             "(check_collaterals_assets alone through verif_hooks, answer compared with Model/PhaseOneArith.collateralAlonzo / "
             "collateralBalance), `ld` (utils::lovelace_diff_or_fail / conway_lovelace_diff_or_fail on the summed inputs and the return, "
             "compared with lovelaceDiffOrFail) and `sv` (the same section in a correctly signed whole transaction) + half of the time `fc` "
-            "(one of the fixtures that carry collateral, the collateral UTxO entries and body keys 16 / 17 rewritten the same way); every "
+            "(one of the fixtures that carry collateral, the collateral UTxO entries and body keys 16 / 17 rewritten the same way); + 1-2 native-script groups: 1-2 "
+            "generated scripts of depth <= 3 over all six constructors (n-of-k with n = 0, k, k+1, 1, 2, 2^32-1, 2^32-2; empty lists; key hashes of "
+            "signing and non-signing keys; time locks on, one before and one after the validity bounds, 0, 2^64-1; validity start / TTL "
+            "present or absent) as `ns` (check_native_scripts alone through verif_hooks, compared with Model/NativeScript) and `nt` (the "
+            "same scripts in the witness set of a correctly signed Shelley / Allegra / Mary transaction that passes every earlier rule); every "
             "whole-transaction scenario that still decodes goes through validate_txs under catch_unwind with a location-recording panic "
             "hook; distinct = sha1 of op text; non-trivial = at least one scenario of the case decoded and was validated",
     "trusted_base": ["level `other`: the theorems cover the rules that have a Lean model (listed in coverage.modelled_rules; the models are tied "
@@ -73,5 +78,7 @@ SPEC = {
                    "VIOLATION + new unaudited site breaks panic_sites_all_audited; (3) harmless: reordering two independent checks in "
                    "validate_babbage_tx -> quiet; (4) seeded C33-a (`f >= s` dropped from the Multiasset/Multiasset arm of "
                    "conway_lovelace_diff_or_fail) -> VIOLATION panic utils.rs attempt_to_subtract_with_overflow with a replay, model/impl "
-                   "differences on `ld` / `cb`, and panic_sites_all_audited broken (guard regex of the audit entry no longer matches).",
+                   "differences on `ld` / `cb`, and panic_sites_all_audited broken (guard regex of the audit entry no longer matches); (5) seeded C33-b (n-of-k counting down "
+                   "from n with an unguarded `missing -= 1`) -> VIOLATION panic shelley_ma.rs attempt_to_subtract_with_overflow, replay = an `nt "
+                   "shelley` transaction whose witness set holds `nk 0 3 ..` with a satisfied sub-script, plus model/impl differences on `ns`.",
 }
